@@ -32,8 +32,17 @@ def grids(rng, n):
 
 
 def density(rng, r):
-    kind = rng.integers(4)
+    kind = rng.integers(6)
     R = r[-1]
+    if kind >= 4:
+        # signed distributions whose node values cancel exactly (a core and an oppositely charged sheath of as many nodes;
+        # or a compensated core, all zeros): "depends linearly on the charge" covers every sign pattern
+        n = r.size; k = int(rng.integers(1, max(2, (n - 1) // 2)))
+        a_ = float(2.0 ** rng.integers(-20, -2))
+        rho = np.zeros(n)
+        if kind == 4:
+            rho[:k] = a_; rho[k:2 * k] = -a_
+        return ("cancelling" if kind == 4 else "zero"), rho
     a = R * rng.uniform(0.05, 0.8)
     amp = -10 ** rng.uniform(-5, -1)
     if kind == 0:
@@ -190,6 +199,11 @@ def stmt_potential(rd, r, rho, kind):
     if phi[-1] != 0.0 or not np.all(np.isfinite(phi)):
         out.append({"key": {"clause": "wall_zero"}, "what": f"radial_potential_{"non" if kind == "non" else ""}uniform_grid: wall potential is {phi[-1]!r}, not 0 (rho[-1]={rho[-1]!r})",
                     "input": {"op": "radpot", "kind": kind, "r": r, "rho": rho}})
+    # superposition: the potential of rho is the sum of the potentials of its positive and its negative part
+    pp, pn = f(r, np.maximum(rho, 0.0)), f(r, np.minimum(rho, 0.0))
+    if np.any(np.abs(phi - (pp + pn)) > 1e-9 * (np.max(np.abs(pp)) + np.max(np.abs(pn))) + 1e-300):
+        out.append({"key": {"clause": "linear"}, "what": f"radial_potential_{"non" if kind == "non" else ""}uniform_grid: potential of a signed charge is not the sum of the potentials of its positive and negative parts "
+                    f"(max |phi| {np.abs(phi).max():.3e}, parts {np.abs(pp).max():.3e} / {np.abs(pn).max():.3e})", "input": {"op": "radpot", "kind": kind, "r": r, "rho": rho}})
     # linearity
     phi2 = f(r, 2.5 * rho)
     if np.any(np.abs(phi2 - 2.5 * phi) > 1e-9 * np.max(np.abs(phi2)) + 1e-300):
